@@ -74,6 +74,9 @@ fn main() {
                     props::c09::child(tier, job, s, e, ctx, local)
                 })
             }
+            "C08" => engine::isolate::child_main(start, end, step, 30, 6 << 30, 2 << 20, move |s, e, ctx, local| {
+                props::c08::child(tier, job, s, e, ctx, local)
+            }),
             "C14" => engine::isolate::child_main(start, end, step, 120, 8 << 30, 16 << 20, move |s, e, ctx, local| {
                 props::c14::child(tier, job, s, e, ctx, local)
             }),
